@@ -39,14 +39,14 @@ def run(prop, tier, seed, scratch, replay=None):
 
     cfg, every, nsim = CFG[prop][tier]
     bfs = vlib.run_tlc(scratch, "TxStore.tla", cfg, out_traces=traces, tag="bfs",
-                       timeout=3000 if tier == "thorough" else 900, coverage=(tier == "thorough"))
+                       timeout=3000 if tier == "thorough" else 900)
     vlib.require_tlc_ok(bfs, "exhaustive exploration")
     with open(graphs, "w") as f:
         f.write(bfs["other"]["GRAPHS"][0])
-    if tier == "thorough" and bfs["coverage_zero"]:
-        acts = [a for a in bfs["coverage_zero"] if a in ("SeeUnmined", "Confirm", "Rollback", "Abandon", "Lease", "Release", "Tick", "NewBlock")]
-        if acts:
-            raise vlib.Broken("actions never taken in the exhaustive run: %s" % acts)
+    cov = None
+    if tier == "thorough":
+        cov = vlib.coverage_check(scratch, "TxStore.tla", CFG[prop]["quick"][0],
+                                  ["SeeUnmined", "Confirm", "Rollback", "Abandon", "Lease", "Release", "Tick", "NewBlock"])
     simtr = scratch.path("sim.ndjson")
     sim = vlib.run_tlc(scratch, "TxStore.tla", "MC_TxStore_sim.cfg", simulate=nsim, depth=25, seed=seed,
                        out_traces=simtr, tag="sim", timeout=1800)
@@ -74,6 +74,8 @@ def run(prop, tier, seed, scratch, replay=None):
         "replayed_steps": rep["steps"], "simulated_behaviours": sim["ntraces"],
         "tlc_bfs_wall_s": bfs["wall_s"], "checker_cmd": bfs["cmd"],
     }
+    if cov:
+        res.coverage["coverage_run"] = cov
     res.assumptions = [
         "transactions are delivered the way wallet.addRelevantTx does (InsertTxCheckIfExists, then AddCredit for own outputs unless the record existed)",
         "histories are chain-consistent by construction (enabling conditions of spec/TxStore.tla)",
